@@ -49,12 +49,21 @@ def cases(tier, seed):
         if cfg["env"] in ("flp", "mcp") and cfg["k"] > 1:
             for r in range(reps):
                 out.append(dict(cfg=cfg, family="mixed_quota", B=8, s=rnd.randrange(10**6), targets=2))
+    # improvement envs (move masks and moves per row, alone vs inside a batch)
+    for n in ((6, 10, 20) if tier == "quick" else (6, 8, 10, 20, 50)):
+        for r in range(reps):
+            out.append(dict(kind="improve", cfg=dict(env="tsp_kopt", n=n, k=2), B=rnd.choice([2, 5, 8]), s=rnd.randrange(10**6), warm=r % 3))
+            out.append(dict(kind="improve", cfg=dict(env="pdp_ruin_repair", n=n + (n % 2)), B=rnd.choice([2, 5, 8]), s=rnd.randrange(10**6), warm=r % 3))
     return out
 
 
 def run_case(ctx, case):
     from vlib import meta
 
+    if case.get("kind") == "improve":
+        from vlib import improve
+
+        return improve.batch_independence_case(ctx, case)
     meta.context_case(ctx, case)
 
 
